@@ -306,7 +306,7 @@ func next(s *sim, r *vgen.Rand) []dop {
 		case x < 70:
 			return []dop{{kind: dProbe}}
 		case x < 74:
-			return []dop{{dMutate, r.Range(0, 4)}}
+			return []dop{{dMutate, r.Range(0, nMut)}}
 		case x < 80 && !s.stopped:
 			return []dop{{kind: dShutdownX}}
 		case x < 86 && s.stopped:
@@ -328,7 +328,7 @@ func next(s *sim, r *vgen.Rand) []dop {
 		case x < 60 && s.mode != modeBlock:
 			return []dop{{kind: dEmit}, {kind: dFlush}}
 		case x < 70:
-			return []dop{{dMutate, r.Range(0, 4)}}
+			return []dop{{dMutate, r.Range(0, nMut)}}
 		case x < 80 && s.mode != modeBlock:
 			return []dop{{kind: dShutdown}}
 		case x < 90:
@@ -341,7 +341,7 @@ func next(s *sim, r *vgen.Rand) []dop {
 	case x < 50:
 		return []dop{{kind: dEmit}}
 	case x < 56:
-		return []dop{{dMutate, r.Range(0, 4)}}
+		return []dop{{dMutate, r.Range(0, nMut)}}
 	case x < 66:
 		if s.mode != modeBlock || s.stopped {
 			return []dop{{kind: dFlush}}
@@ -364,6 +364,7 @@ type detResult struct {
 	prog   []dop
 	evs    []event
 	stuck  string // a call did not return / runaway: observed directly
+	how    string // spelling of the options, entry points used
 	unmet  string // the gate did not see what the predictor expected: the recorded history is judged by Coq
 	sim    *sim
 }
@@ -372,6 +373,7 @@ type detResult struct {
 // After a first unmet expectation (already a reported disagreement) later waits are short.
 var expectWD = watchdog
 var unmetScenarios atomic.Int32
+var firstDet atomic.Bool
 
 // parseProg reads "q,b,s: e m2 f p s x MO ME MB RO RE" (replay of a deterministic case).
 func parseProg(txt string) (cfg, []dop) {
@@ -405,29 +407,61 @@ func parseProg(txt string) (cfg, []dop) {
 	return c, p
 }
 
-func genAndRun(r *vgen.Rand) detResult { return runProg(r, nil, cfg{}) }
+func genAndRun(r *vgen.Rand) (res detResult) {
+	defer func() {
+		if p := recover(); p != nil {
+			res.stuck = fmt.Sprint("panic: ", p)
+		}
+	}()
+	return runProg(r, nil, cfg{})
+}
 
 func runProg(r *vgen.Rand, fixed []dop, fc cfg) detResult {
 	c := cfg{qcap: r.Range(1, 8), bufsz: r.Range(1, 3)}
 	c.maxb = min(r.Range(1, 8), c.qcap) // the processor clamps the batch size to the queue size
-	if r.Chance(1, 3) {
+	switch r.Intn(6) {
+	case 0:
 		c.qcap = r.Range(1, 3)
 		c.maxb = min(c.maxb, c.qcap)
+	case 1:
+		c.maxb = 1 // every Emit triggers; chunking cuts every record apart
+	case 2:
+		c.maxb = c.qcap // poll triggers only on a full queue; no payload is ever chunked
+	}
+	bigDefault := fixed == nil && firstDet.CompareAndSwap(false, true) // once per run
+	if bigDefault {
+		c = cfg{dfltQ, dfltB, dfltS} // all defaults: exercised with one full default batch
 	}
 	if fixed != nil {
 		c = fc
 	}
-	rg := newRig(c, time.Hour, time.Hour)
+	spec := spell(r, c, time.Hour, time.Hour)
+	if ec := spec.effective(); ec != c {
+		panic(fmt.Sprintf("harness: spelling %v of %v is %v", spec, c, ec))
+	}
+	rg := newRigSpec(spec)
+	rg.viaProvider = r.Bool()
+	rg.direct = r.Intn(3)
 	s := &sim{c: c}
-	res := detResult{c: c, sim: s}
+	res := detResult{c: c, sim: s, how: fmt.Sprintf("%v provider=%v direct=%d", spec, rg.viaProvider, rg.direct)}
 	seq := 0
 	nops := r.Range(6, 40)
 	exec := func(o dop) bool {
+		if res.unmet != "" {
+			// the predictor is out of step with the implementation (already a reported
+			// disagreement): go on with plain Emits only, nothing is waited for; the
+			// history is still judged by the specification
+			if o.kind == dEmit {
+				rg.emitShape(0, 0, seq, 7)
+				seq++
+			}
+			return true
+		}
 		res.prog = append(res.prog, o)
 		k := s.apply(o)
 		switch o.kind {
 		case dEmit:
-			rg.emit(0, 0, seq)
+			rg.emitShape(0, 0, seq, shapes[r.Intn(len(shapes))])
 			seq++
 		case dMutate:
 			rg.mut.how.Store(int32(o.arg))
@@ -478,11 +512,16 @@ func runProg(r *vgen.Rand, fixed []dop, fc cfg) detResult {
 			expectWD = 2 * time.Second
 			res.unmet = fmt.Sprintf("gate saw %d/%d/%d export entries/returns/shutdowns, expected %d/%d/%d after %s",
 				rg.g.begins, rg.g.ends, rg.g.shuts, s.begins, s.ends, s.shuts, o.coq())
-			return false
+			return true
 		}
 		return true
 	}
 	ok := true
+	if bigDefault {
+		for i, n := 0, dfltB+r.Range(0, 9); i < n && ok; i++ {
+			ok = exec(dop{kind: dEmit})
+		}
+	}
 	if fixed != nil {
 		nops = 0
 		for _, o := range fixed {
@@ -498,19 +537,24 @@ func runProg(r *vgen.Rand, fixed []dop, fc cfg) detResult {
 			}
 		}
 	}
-	if ok && s.blocked() {
+	if ok && res.unmet == "" && s.blocked() {
 		ok = exec(dop{dRelease, modeOK})
 		if ok && s.dirty {
 			ok = exec(dop{kind: dFlush})
 		}
 	}
-	if ok && !s.stopped {
+	if ok && res.unmet == "" && !s.stopped {
 		if s.mode == modeBlock {
 			ok = exec(dop{dMode, modeOK})
 		}
 		if ok {
 			ok = exec(dop{kind: dShutdown})
 		}
+	}
+	if res.unmet != "" {
+		rg.g.unblock(modeOK)
+		callWD(func() { rg.flush(0, context.Background()) })
+		callWD(func() { rg.shutdown(0, context.Background()) })
 	}
 	if !ok {
 		rg.g.unblock(modeOK) // let the goroutines go
@@ -559,13 +603,17 @@ func runDet(w *vgen.Writer, r *vgen.Rand, n int) {
 		for j, o := range res.prog {
 			ps[j] = o.coq()
 		}
-		desc := map[string]any{"cfg": coqCfg(res.c), "prog": ps, "history": descHistory(res.evs)}
+		desc := map[string]any{"cfg": coqCfg(res.c), "how": res.how, "prog": ps, "history": descHistory(res.evs)}
+		if len(res.evs) > 300 {
+			desc["history"] = descHistory(res.evs[len(res.evs)-300:])
+			desc["prog"] = ps[max(0, len(ps)-60):]
+		}
 		if res.stuck != "" {
 			stuckScenarios.Add(1)
 			if len(res.evs) > 400 {
 				desc["history"] = descHistory(res.evs[:400])
 			}
-			w.Violation("Stuck: "+res.stuck, desc)
+			w.Violation(strings.TrimPrefix("Stuck: "+res.stuck, "Stuck: panic: "), desc)
 			continue
 		}
 		if res.unmet != "" {
@@ -584,5 +632,12 @@ func runDet(w *vgen.Writer, r *vgen.Rand, n int) {
 		if s.blockedOnce {
 			w.Tally("det.blocked")
 		}
+		if res.c.maxb == res.c.qcap {
+			w.Tally("det.batch=queue")
+		}
+		if res.c.qcap == dfltQ {
+			w.Tally("det.all_defaults")
+		}
+		w.Tally("det." + res.how[strings.Index(res.how, "provider="):])
 	}
 }
